@@ -295,6 +295,21 @@ def _propagate_pure_temps(fn):
 
     def enclosing_loops(node):
         return [lp for lp in loops if any(x is node for x in ast.walk(lp))]
+    # textual order of the function's own nodes (depth first, fields in source
+    # order): line numbers do not order statements that came from an inlined
+    # helper
+    order = {}
+
+    def number(node):
+        order[id(node)] = len(order)
+        for ch in ast.iter_child_nodes(node):
+            number(ch)
+    # the value of an assignment is evaluated before its target is bound
+    for st_ in fn.body:
+        number(st_)
+
+    def pos(x):
+        return order.get(id(x), 0)
     changed = False
     for n in list(own):
         if not (isinstance(n, ast.Assign) and len(n.targets) == 1 and
@@ -320,13 +335,13 @@ def _propagate_pure_temps(fn):
                                     for lp in encl)
                     # a binding earlier in the text is executed before this
                     # definition in every iteration that reaches the uses
-                    if not is_target and not st.lineno < n.lineno:
+                    if not is_target and not pos(st) < pos(n):
                         ok = False
         if not ok:
             continue
         uses = [x for x in own if isinstance(x, ast.Name) and x.id == t
                 and isinstance(x.ctx, ast.Load)]
-        if not uses or any(u.lineno < n.lineno for u in uses):
+        if not uses or any(pos(u) < pos(n) for u in uses):
             continue
         # uses must lie in the same block or deeper (dominated): approximate by
         # requiring the definition's block to contain them
